@@ -273,6 +273,7 @@ class Outcome:
         self.findings = load_findings()
         self.tlc_runs = []
         self.drift = []
+        self.clause_filter = None
 
     def add_tlc(self, name, res):
         if res.error:
@@ -297,7 +298,7 @@ class Outcome:
         os.makedirs(os.path.join(outdir, "evidence"), exist_ok=True)
         for fid, n in sorted(self.known_hit.items()):
             f = next(x for x in self.findings if x["id"] == fid)
-            print(f"KNOWN-FINDING: property={f['property']} {f['what']} [{fid}; {n} case(s) this run]")
+            print(f"KNOWN-FINDING: property={f['property'].split('/')[0]} {f['what']} [{fid}; {n} case(s) this run]")
         rc = 0
         if self.violations:
             rc = 1
